@@ -442,11 +442,16 @@ func (c *Ctx) armSize(stack []ast.Node) (int64, bool) {
 			continue
 		}
 		call, ok := ast.Unparen(sw.Tag).(*ast.CallExpr)
-		if !ok || c.m.calleeName(call) != "unsafe.Sizeof" || len(call.Args) != 1 {
+		if !ok {
 			continue
 		}
-		if _, isTP := types.Unalias(info.TypeOf(call.Args[0])).(*types.TypeParam); !isTP {
-			continue
+		if !c.sizeofOfTypeParam(call) {
+			if c.m.calleeName(call) != "unsafe.Sizeof" || len(call.Args) != 1 {
+				continue
+			}
+			if _, isTP := types.Unalias(info.TypeOf(call.Args[0])).(*types.TypeParam); !isTP {
+				continue
+			}
 		}
 		if tv, ok := info.Types[cc.List[0]]; ok && tv.Value != nil {
 			if v, exact := constant.Int64Val(constant.ToInt(tv.Value)); exact {
@@ -641,4 +646,38 @@ func collectorFollows(t types.Type, depth int) bool {
 		return any
 	}
 	return false
+}
+
+// sizeofOfTypeParam: widthOf[K]() – a generic helper without parameters, instantiated with a type
+// parameter of the caller, whose every return is unsafe.Sizeof of a value of its own type parameter.
+func (c *Ctx) sizeofOfTypeParam(call *ast.CallExpr) bool {
+	info := c.m.Info
+	if len(call.Args) != 0 {
+		return false
+	}
+	ix, ok := ast.Unparen(call.Fun).(*ast.IndexExpr)
+	if !ok {
+		return false
+	}
+	if _, isTP := types.Unalias(info.TypeOf(ix.Index)).(*types.TypeParam); !isTP {
+		return false
+	}
+	cu := c.m.calleeUnit(call)
+	if cu == nil || cu.Lit != nil || cu.Body == nil {
+		return false
+	}
+	rets, all := returnExprs(cu)
+	if !all || len(rets) == 0 {
+		return false
+	}
+	for _, r := range rets {
+		sc, ok := ast.Unparen(r).(*ast.CallExpr)
+		if !ok || c.m.calleeName(sc) != "unsafe.Sizeof" || len(sc.Args) != 1 {
+			return false
+		}
+		if _, isTP := types.Unalias(info.TypeOf(sc.Args[0])).(*types.TypeParam); !isTP {
+			return false
+		}
+	}
+	return true
 }
